@@ -997,8 +997,9 @@ func (fx *FnExec) indexAddr(fr *frame, st *State, x *ssa.IndexAddr) PtrV {
 
 func (fx *FnExec) boundsCheck(fr *frame, st *State, pos token.Pos, idx, n *Term, idxv ssa.Value) {
 	c := fx.c
-	// 0 <= idx < n  as a single unsigned comparison (n >= 0 is invariant)
-	g := c.BVCmp("bvult", idx, n)
+	// 0 <= idx < n in signed form (n >= 0 is an invariant); the signed form matches the program's own
+	// signed length arithmetic and is markedly easier for the solvers than the unsigned trick
+	g := c.And(c.BVCmp("bvsle", fx.bv64(0), idx), c.BVCmp("bvslt", idx, n))
 	fx.oblige(fr, st, "index", pos, g, "index in range")
 }
 
@@ -1075,10 +1076,11 @@ func (fx *FnExec) slice(fr *frame, st *State, x *ssa.Slice) Val {
 	}
 	// 0 <= lo <= hi <= (max <=) limit
 	var g *Term
+	z := fx.bv64(0)
 	if mx != nil {
-		g = c.And(c.BVCmp("bvule", mx, limit), c.BVCmp("bvule", hi, mx), c.BVCmp("bvule", lo, hi))
+		g = c.And(c.BVCmp("bvsle", z, lo), c.BVCmp("bvsle", lo, hi), c.BVCmp("bvsle", hi, mx), c.BVCmp("bvsle", mx, limit))
 	} else {
-		g = c.And(c.BVCmp("bvule", hi, limit), c.BVCmp("bvule", lo, hi))
+		g = c.And(c.BVCmp("bvsle", z, lo), c.BVCmp("bvsle", lo, hi), c.BVCmp("bvsle", hi, limit))
 	}
 	fx.oblige(fr, st, "slice", x.Pos(), g, "slice bounds in range")
 	if isStr {
